@@ -9,6 +9,8 @@ let cty_ s = match list s with
   | [Atom "path"; segs; args] -> M.CPath (list_ str_ segs, opt_ (list_ garg_) args)
   | _ -> failwith "cty"
 
+let pat_ s = match atom s with "ident" -> M.PatIdent | "wild" -> M.PatWild | "destructure" -> M.PatDestructure | _ -> failwith "pat"
+let param_ s = match list s with [n; t; p] -> ((str_ n, cty_ t), pat_ p) | _ -> failwith "param"
 let of_src = function M.Validated -> Atom "v" | M.Raw -> Atom "r"
 let of_entry ((k, o), s) = List [of_str k; of_bool o; of_src s]
 let err_name = function
@@ -33,7 +35,7 @@ let () =
     | [dcase; cname; macro; params; iplain; izod] ->
         let cf = M.c04_cfg (str_ dcase) in
         let name = str_ cname in
-        let c = M.c04_cmd name (opt_ str_ macro) (list_ (pair_ str_ cty_) params) in
+        let c = M.c04_cmd name (opt_ str_ macro) (list_ param_ params) in
         let mp = M.c04_model cf false c and mz = M.c04_model cf true c in
         let op = observe name iplain and oz = observe name izod in
         let b f = of_bool f in
@@ -53,7 +55,7 @@ let () =
     | [dcase; files; iplain; izod] ->
         let cf = M.c04_cfg (str_ dcase) in
         let fn_ s = match list s with
-          | [n; ic; macro; params] -> M.c04_fn (str_ n) (bool_ ic) (opt_ str_ macro) (list_ (pair_ str_ cty_) params)
+          | [n; ic; macro; params] -> M.c04_fn (str_ n) (bool_ ic) (opt_ str_ macro) (list_ param_ params)
           | _ -> failwith "fn" in
         let proj = list_ (list_ fn_) files in
         let dom = M.c04_project_dom cf proj in
